@@ -82,6 +82,29 @@ Section Manager.
   Definition grun (g : cfg) (steps : list (sess * ev)) : gstate :=
     fold_left (fun G se => gstep g G (fst se) (snd se)) steps gstate0.
 
+  (* ---- connection execution options (set_connection_execution_options -> track_cloned_connections):
+     a connection that has no unit of work adopts the one of an OPEN connection sharing its DB-API
+     connection (a clone / branch of it); the last such entry wins.  The adopted unit of work is the
+     same Python object; the model copies it, which is exact as long as the two connections are not
+     both used afterwards (never the case for independent sessions, see ManagerP). *)
+  Inductive gev := GE (e : ev) | GOpt.
+
+  Definition clone_track (G : gstate) (c : nat) : gstate :=
+    match aget (g_uows G) c with
+    | Some _ => G
+    | None =>
+        match rev (filter (fun p => negb (closed (fst p)) && (dbapi (fst p) =? dbapi c)%nat) (g_uows G)) with
+        | [] => G
+        | p :: _ => mkg (g_uows G ++ [(c, snd p)]) (g_smap G) (g_dbs G)
+        end
+    end.
+
+  Definition gstep2 (g : cfg) (G : gstate) (s : sess) (x : gev) : gstate :=
+    match x with GE e => gstep g G s e | GOpt => clone_track G (ss_conn s) end.
+
+  Definition grun2 (g : cfg) (steps : list (sess * gev)) : gstate :=
+    fold_left (fun G se => gstep2 g G (fst se) (snd se)) steps gstate0.
+
   (* what session s can see of the global state *)
   Definition view (G : gstate) (s : sess) : option uow * option nat * option (db * db * bool) :=
     (aget (g_uows G) (ss_conn s), aget (g_smap G) (ss_id s), aget (g_dbs G) (ss_conn s)).
